@@ -288,7 +288,9 @@ def job(arg):
 
 OPS = [("add", ("a",), "r"), ("add", ("a", "b"), "r"), ("add", (), "r"), ("add", ("a", ""), "r"), ("add", ("b",), "s0"), ("add", ("a",), "s2"),
        ("add", ("a", "b"), "s1"), ("add", ("b",), "leaf"), ("rm", ("a",)), ("rm", ("a", "b")), ("rm", ()), ("rm", ("b",)), ("rm", ("a", "")),
-       ("add", ("b", "a"), "r")]
+       ("add", ("b", "a"), "r"),
+       # changes made to a nested site (whichever is mounted at /b or /a) after it has been mounted
+       ("addin", ("b",), ("n",)), ("rmin", ("b",), ("n",)), ("addin", ("a",), ("n",))]
 
 
 def histories(res, firsts):
@@ -303,14 +305,32 @@ def histories(res, firsts):
 
             def factory(sw):
                 site_holder["s"] = resource.Site()
+                site_holder["s"].add_resource([".well-known", "core"], resource.WKCResource(site_holder["s"].get_resources_as_linkheader))
                 return site_holder["s"]
             sw = SiteWorld(factory)
             try:
                 site = site_holder["s"]
                 mres, msub, mleaf = {}, {}, {}
+                subobj = {}
                 valid = True
                 for op in hist:
-                    if op[0] == "add":
+                    if op[0] in ("addin", "rmin"):
+                        _, sp, ip = op
+                        if sp not in msub:
+                            valid = False
+                            break
+                        rs, ss, ls = msub[sp]
+                        have = any(pp == ip for pp, _ in rs) or any(pp == ip for pp, _ in ss) or ip in ls
+                        if (op[0] == "addin") == have:
+                            valid = False
+                            break
+                        if op[0] == "addin":
+                            subobj[sp].add_resource(list(ip), Rec("R" + "/".join(ip) + "#1", log, **ATTRS[1]))
+                            msub[sp] = (tuple(rs) + ((ip, 1),), ss, ls)
+                        else:
+                            subobj[sp].remove_resource(list(ip))
+                            msub[sp] = (tuple(x for x in rs if x[0] != ip), ss, ls)
+                    elif op[0] == "add":
                         _, p, kind = op
                         if kind == "r":
                             if p in msub or p in mleaf:
@@ -329,7 +349,8 @@ def histories(res, firsts):
                                 valid = False
                                 break
                             inner = INNER[int(kind[1])]
-                            site.add_resource(list(p), build_site(inner, log))
+                            subobj[p] = build_site(inner, log)
+                            site.add_resource(list(p), subobj[p])
                             msub[p] = inner
                             mleaf.pop(p, None)
                     else:
@@ -355,6 +376,17 @@ def histories(res, firsts):
                         if not ok:
                             res.violate(Violation("routing-after-change", want or "4.04", {"code": code, "handler": got},
                                                   "resource.py:Site.add_resource/remove_resource", {"history": hist, "path": path}, key="hist"))
+                    # the listing follows every change, wherever in the tree it was made
+                    r = sw.do(Message(code=GET, uri_path=[".well-known", "core"]), 1)
+                    res.evaluations += 1
+                    try:
+                        gk = sorted(h for h, a in parse_linkformat(r.payload.decode("utf8")) if a.get("rel") != "impl-info")
+                    except Exception as e:
+                        gk = ["unparsable: %s" % e]
+                    wk = sorted([h for h, a in model_links(cfg)] + ["/.well-known/core"])
+                    if gk != wk:
+                        res.violate(Violation("discovery-after-change", wk, gk, "resource.py:Site.get_resources_as_linkheader",
+                                              {"history": hist}, key="hist-disc-" + ("more" if len(gk) > len(wk) else "fewer" if len(gk) < len(wk) else "diff")))
                     res.transitions += 1
                     res.states.add(core.digest(cfg))
                 if valid:
